@@ -810,12 +810,33 @@ func ruleU7(c *Ctx) {
 				return true
 			}
 			stack = append(stack, x)
-			bl, ok := x.(*ast.BasicLit)
-			if !ok || bl.Kind != token.STRING {
+			// a string literal, or the use of a named string constant, that opens a placeholder
+			var bl ast.Expr
+			switch y := x.(type) {
+			case *ast.BasicLit:
+				if y.Kind == token.STRING {
+					bl = y
+				}
+			case *ast.Ident:
+				if _, isConst := p.TypesInfo.Uses[y].(*types.Const); isConst {
+					bl = y
+				}
+			}
+			if bl == nil {
 				return true
 			}
 			s, ok := constStr(p.TypesInfo, bl)
 			if !ok || !strings.Contains(s, "{{") {
+				return true
+			}
+			// the declaration of such a constant is judged where the constant is used
+			inConstDecl := false
+			for _, anc := range stack {
+				if gd, ok := anc.(*ast.GenDecl); ok && gd.Tok == token.CONST {
+					inConstDecl = true
+				}
+			}
+			if inConstDecl {
 				return true
 			}
 			// the literal may be one piece of a concatenation: "… {{." + label + "}}" is the same
